@@ -587,6 +587,23 @@ class Emitter:
     def vardecl(self, n):
         name = n['name']
         q = qtype(n)
+        if q.strip().startswith('(lambda at') and self.opts.get('inline_lambdas'):
+            # G15: a local [&] lambda is inlined at its call sites (captures by reference = the enclosing function's own variables)
+            self.fire('G15')
+            lam = None
+            stack = list(kids(n))
+            while stack:
+                c = stack.pop()
+                if c.get('kind') == 'LambdaExpr':
+                    lam = c
+                    break
+                stack.extend(kids(c))
+            if lam is None:
+                raise ExtractError('lambda variable %s without LambdaExpr' % name)
+            if not hasattr(self, 'lambdas'):
+                self.lambdas = {}
+            self.lambdas[n['id']] = lam
+            return '/* lambda %s: inlined at its call sites */' % name
         ti = self.tm.info(q)
         ks = kids(n)
         init = ks[-1] if ks else None
@@ -1090,10 +1107,44 @@ class Emitter:
             return txt
         raise ExtractError('member call %s on %s' % (name, qtype(base)))
 
+    def inline_lambda(self, lam, args):
+        """the body of a void [&] lambda as a block, parameters bound to the arguments (G15)"""
+        meth = None
+        for c in kids(lam):
+            if c.get('kind') == 'CXXRecordDecl':
+                for m in kids(c):
+                    if m.get('kind') == 'CXXMethodDecl' and m.get('name') == 'operator()':
+                        meth = m
+        if meth is None:
+            raise ExtractError('lambda without call operator')
+        if 'void' not in qtype(meth).split('(')[0]:
+            raise ExtractError('only void lambdas are inlined')
+        params = [c for c in kids(meth) if c['kind'] == 'ParmVarDecl']
+        body = [c for c in kids(meth) if c['kind'] == 'CompoundStmt']
+        if len(params) != len(args) or not body:
+            raise ExtractError('lambda call does not match its definition')
+        self.lam_no = getattr(self, 'lam_no', 0) + 1
+        decls = []
+        for p_, a in zip(params, args):
+            pi = self.tm.info(qtype(p_))
+            if pi['kind'] == 'scalar':
+                decls.append('%s %s = %s;' % (pi['ctype'], p_['name'], self.emit(a)))
+            elif pi['kind'] == 'opaque':
+                # an opaque library object (std::string ...): only its identity exists in the C text
+                decls.append('%s %s; ' % (pi['ctype'], p_['name']))
+                if pi['ref']:
+                    self.refs[p_['id']] = '(%s)' % p_['name']
+            else:
+                raise ExtractError('lambda parameter of type ' + qtype(p_))
+        return '{ %s %s }' % (' '.join(decls), self.emit(body[0]))
+
     def operator_call(self, n, dst):
         ks = kids(n)
         op = strip_all(ks[0])['referencedDecl']['name']
         args = ks[1:]
+        a0 = strip_all(args[0])
+        if op == 'operator()' and a0.get('kind') == 'DeclRefExpr' and a0.get('referencedDecl', {}).get('id') in getattr(self, 'lambdas', {}):
+            return self.inline_lambda(self.lambdas[a0['referencedDecl']['id']], args[1:])
         bti = self.tm.info(qtype(args[0]))
         h = self.opts.get('operator_calls', {}).get((bti['ctype'], op)) or self.opts.get('operator_calls', {}).get(('*', op))
         if h:
